@@ -141,15 +141,18 @@ mut('stdout_mode_writes_back', 'break', ['C16'], FF,
                 if decoded.bom.is_some() && decoded.contents.len() > formatted_output.len() {
                     let _ = file.set_len(0);
                 }''', 'stdout mode truncates BOM files whose result is shorter')
-mut('dedupe_by_path_only', 'break', ['C18'], FF,
+mut('no_per_file_lock', 'break', ['C18'], FF,
+    '''                let _one_worker_at_a_time = file_lock.as_ref().map(|lock| lock.lock().unwrap());''',
+    '''                let _one_worker_at_a_time = file_lock.as_ref().map(|_| ());''', 'undoes F05/F08: needs two hard-linked names of one file, two workers and a read between write and set_len')
+mut('drop_names_with_a_seen_inode', 'break', ['C18'], FF,
+    '''            Ok(path) => seen.insert(path.canonicalize().unwrap_or_else(|_| path.clone())),''',
     '''            Ok(path) => seen.insert(match file_identity(path) {
-                Some(id) => Ok(id),''',
-    '''            Ok(path) => seen.insert(match file_identity(path).filter(|_| false) {
-                Some(id) => Ok(id),''', 'undoes F05: needs two hard-linked names of one file, two workers and a read between write and set_len')
-mut('no_dedupe_at_all', 'break', ['C18'], FF,
-    '''            Ok(path) => seen.insert(match file_identity(path) {''',
-    '''            Ok(path) => true || seen.insert(match file_identity(path) {''', 'undoes F01 and F05: same file named twice')
-
+                Some((dev, ino)) => PathBuf::from(format!("{dev}:{ino}")),
+                None => path.canonicalize().unwrap_or_else(|_| path.clone()),
+            }),''', 'brings back b35a50e (F08): needs a second name that is read-only, or a link that breaks on write')
+mut('p_no_dedupe_at_all', 'preserve', ['C18'], FF,
+    '''            Ok(path) => seen.insert(path.canonicalize().unwrap_or_else(|_| path.clone())),''',
+    '''            Ok(path) => true || seen.insert(path.canonicalize().unwrap_or_else(|_| path.clone())),''', 'the same path named twice is processed twice, but under the per-file lock: no race, results equal - expected to stay silent')
 mut('walk_by_extension_only', 'break', ['C18'], FF,
     '''                                match formattable_file_path(file_path) && !file_path.is_dir() {''',
     '''                                match formattable_file_path(file_path) {''', 'undoes F07: needs a directory named like a source file inside (or as) the walked directory')
